@@ -52,7 +52,7 @@ Lemma setattr_single T pt st n i name ty pts v : tables_ok T = true -> In (n, i)
 Proof.
   intros HT I Hn A. destruct (tables_ok_row T n i HT I) as [F1 F2 F3 F4 F5 _].
   unfold setattr. rewrite Hn, F3, F4. cbn [negb]. rewrite F1, A.
-  destruct (negb (memz pt pts)); [reflexivity|].
+  destruct (negb (memz pt pts)); [reflexivity|]. cbn [checked_items range_check_all].
   destruct (range_check (t_groups T) (compress n) v) as [[]| |]; cbn [bind]; try reflexivity.
   unfold allows_multiple. rewrite F1. reflexivity.
 Qed.
@@ -61,18 +61,32 @@ Lemma setattr_list T pt st n i name ty pts l : tables_ok T = true -> In (n, i) (
   compress name = compress n -> assoc i (t_table T) = Some (ty, pts) ->
   setattr T pt st name (Many l) =
     if negb (memz pt pts) then (if (- t_npackets T <=? pt) && (pt <? t_npackets T) then Raise 3 else Raise 6)
-    else if memz i (t_multi T) then
-           match assoc i st with
-           | None => Ok (store i (Many l) st)
-           | Some (Many old) => Ok (store i (Many (old ++ l)) st)
-           | Some (One _) => Raise 2
-           end
-         else Ok (store i (Many l) st).
+    else match range_check_all (t_groups T) (compress n) l with
+         | Ok _ =>
+             if memz i (t_multi T) then
+               match assoc i st with
+               | None => Ok (store i (Many l) st)
+               | Some (Many old) => Ok (store i (Many (old ++ l)) st)
+               | Some (One _) => Raise 2
+               end
+             else Ok (store i (Many l) st)
+         | Raise k => Raise k
+         | OutOfFuel => OutOfFuel
+         end.
 Proof.
   intros HT I Hn A. destruct (tables_ok_row T n i HT I) as [F1 F2 F3 F4 F5 _].
   unfold setattr. rewrite Hn, F3, F4. cbn [negb]. rewrite F1, A.
-  destruct (negb (memz pt pts)); [reflexivity|]. cbn [bind].
+  destruct (negb (memz pt pts)); [reflexivity|]. unfold checked_items. rewrite (tables_ok_each T HT).
+  destruct (range_check_all (t_groups T) (compress n) l) as [[]| |]; cbn [bind]; try reflexivity.
   unfold allows_multiple. rewrite F1. reflexivity.
+Qed.
+
+(* every element of a list that passed the checks passed them individually *)
+Lemma range_check_all_in groups cn l v : range_check_all groups cn l = Ok tt -> In v l ->
+  range_check groups cn v = Ok tt.
+Proof.
+  induction l as [|x r IH]; intros H Hin; [contradiction|]. cbn [range_check_all] in H.
+  apply bind_ok in H as [[] [H1 H2]]. destruct Hin as [<-|Hin]; [exact H1|exact (IH H2 Hin)].
 Qed.
 
 (* an unknown name (and not one of the object's own attributes) is refused *)
